@@ -190,6 +190,12 @@ def check(ctx, report):
     if ia is not None and not any(isinstance(n, ast.Call) and isinstance(n.func, ast.Attribute) and n.func.attr == 'extend' for n in ast.walk(ia.node)):
         report.add('C12.R6', ia.construct + '@atomic', '__iadd__ does not go through the atomic extend')
     item_size_agreement(ctx, report, ab)
+    # enum coded vectors book the width of the fallback class per item and write the width of the item class: the two are equal
+    # (shared with C10.R3)
+    report.rule('C12.R11', 'enum coded vectors: the width booked per item (fallback class) is the width written per item (code of the item class)')
+    from .c10 import widths
+    widths(ctx, report, RULE='C12.R11')
+    report.floor('C12.R11', 20, 'width obligations')
     protocol_bounds(ctx, report)
     # R2
     u = ab.methods.get('_update_items_size')
